@@ -447,7 +447,7 @@ class WSGITask(Task):
             if isinstance(app_iter, ReadOnlyFileBasedBuffer):
                 cl = self.content_length
                 size = app_iter.prepare(cl)
-                if size:
+                if size and self.has_body:
                     if cl != size:
                         if cl is not None:
                             self.remove_content_length_header()
